@@ -308,6 +308,7 @@ func runC09(c *kit.Ctx) {
 	// ---- R6 ---------------------------------------------------------------
 	c.StartRule("R6", "the establisher's 'should not happen' panics are unreachable", 3)
 	failedLookupResultsAreNotUsed(c)
+	constructorPanicsAreInputIndependent(c)
 	lookupContexts(c)
 	{
 		ire := c.Anchor("", "", "isRegionEstablished")
@@ -371,6 +372,9 @@ func runC09(c *kit.Ctx) {
 	if !c.Frozen {
 		embed(c, "R9", "every wait a request can sit in watches something that ends: its own context, the batch context, the client's done channel (the rules of C13, run as one rule here)", 30, runC13)
 	}
+	if !c.Frozen {
+		embed(c, "R10", "what ends an outage is decided by the error class alone: a table that is gone is given up (and leaves the caches), everything else is retried (the rules of C04, run as one rule here)", 30, runC04)
+	}
 	embed(c, "R7", "no request is stranded by a failing connection (the rules of C03, run as one rule here)", 30, runC03)
 	if !c.Frozen {
 		embed(c, "R8", "a region that leaves the cache is marked dead - and only such a region - so that nobody keeps waiting for, or re-establishing, a region that cannot come back (the rules of C08, run as one rule here)", 10, runC08)
@@ -420,7 +424,18 @@ func runC09(c *kit.Ctx) {
 				}
 				ph, isPhi := v.(*ssa.Phi)
 				if !isPhi {
-					okRet = false
+					// the result is the very condition the creation is guarded by (wasAvailable := i.available == nil)
+					same := false
+					if mkStore != nil {
+						for _, f := range kit.EdgeFacts(mkStore.Block().Preds[0], mkStore.Block()) {
+							if len(mkStore.Block().Preds) == 1 && f.Pol && (f.Cond == v || kit.SameCond(f.Cond, v)) {
+								same = true
+							}
+						}
+					}
+					if !same {
+						okRet = false
+					}
 					return
 				}
 				for k, ed := range ph.Edges {
